@@ -823,6 +823,11 @@ func (obj *SparseInt32MatrixJoint3Iterator) Ok() bool {
          !(obj.s3 == nil || obj.s3.GetInt32() == 0.0)
 }
 func (obj *SparseInt32MatrixJoint3Iterator) Next() {
+  // skip positions where all operands hold a zero
+  for obj.next() && !obj.Ok() {
+  }
+}
+func (obj *SparseInt32MatrixJoint3Iterator) next() bool {
   ok1 := obj.it1.Ok()
   ok2 := obj.it2.Ok()
   ok3 := obj.it3.Ok()
@@ -871,6 +876,7 @@ func (obj *SparseInt32MatrixJoint3Iterator) Next() {
   } else {
     obj.s3 = ConstInt32(0.0)
   }
+  return ok1 || ok2 || ok3
 }
 func (obj *SparseInt32MatrixJoint3Iterator) Get() (Scalar, ConstScalar, ConstScalar) {
   if obj.s1.ptr == nil {
